@@ -14,6 +14,7 @@
 import IbcVerif.Model.Bytes
 import IbcVerif.Model.Panic
 import IbcVerif.Model.Dec
+import IbcVerif.Model.AbiAmount
 namespace IbcVerif.Abi
 open IbcVerif
 
@@ -154,13 +155,14 @@ def parseBig10 : List Char → Option (Bool × Nat)
 
 def ics20Tys : List FTy := [.dyn, .dyn, .dyn, .uint256, .dyn]
 
-/-- `EncodeABIFungibleTokenPacketData`: note `packElement` rejects a negative big.Int for a uint
-    type and `U256Bytes` silently reduces mod 2^256. -/
+/-- `EncodeABIFungibleTokenPacketData` (after fix 6129489): the amount is read with
+    `sdkmath.NewIntFromString` exactly as `ValidateBasic` and the keeper read it; unparsable,
+    > 256-bit and negative amounts are `ErrAbiEncoding`. -/
 def encodeFtpd (d : Ftpd) : G Bytes :=
-  match parseBig10 d.amount with
+  match newIntFromString d.amount with
   | none => .err "abi-encoding: failed to parse amount"
   | some (neg, n) =>
-    if neg ∧ n ≠ 0 then .err "abi-encoding: negative"
+    if neg then .err "abi-encoding: failed to parse amount"
     else .ok (packWrapped [.dyn d.denom, .dyn d.sender, .dyn d.receiver, .num n, .dyn d.memo])
 
 /-- `DecodeABIFungibleTokenPacketData`; `Amount: packetData.Amount.String()` is canonical decimal -/
@@ -222,11 +224,14 @@ deriving Repr, DecidableEq
 /-- `(*StateAttestation).ABIEncode`: the timestamp is written in whole seconds -/
 def encodeState (s : StateAtt) : Bytes := packStatic [s.height, s.timestamp / nanosPerSecond]
 
-/-- `ABIDecodeStateAttestation`: seconds are multiplied back in `uint64` arithmetic (wraps) -/
+/-- `ABIDecodeStateAttestation`: seconds whose nanosecond conversion would wrap in `uint64` are
+    rejected (fix b1892f8: `timestampSeconds > math.MaxUint64/nanosPerSecond`) -/
 def decodeState (data : Bytes) : G StateAtt := do
   let vs ← unpackStatic [.uint64, .uint64] data
   match vs with
-  | [.num h, .num secs] => .ok ⟨h, (secs * nanosPerSecond) % 2 ^ 64⟩
+  | [.num h, .num secs] =>
+    if secs > (2 ^ 64 - 1) / nanosPerSecond then .err "invalid-timestamp"
+    else .ok ⟨h, (secs * nanosPerSecond) % 2 ^ 64⟩
   | _ => .err "invalid state attestation"
 
 structure PacketCompact where
